@@ -1006,7 +1006,11 @@ func (c *Compiler) compileFieldAccess(expr *ast.FieldAccessExpr) error {
 	c.emitWithOperand(vm.OpPush, uint32(fieldIdx))
 
 	// Emit get field instruction
-	c.emit(vm.OpGetField)
+	// (a keyed read: OpGetIndex on an object yields null for an absent key,
+	// which is what `obj.field` means in the interpreter, where optional
+	// fields such as input.user_id or query.page are tested against null;
+	// OpGetField fails with "field not found" instead)
+	c.emit(vm.OpGetIndex)
 
 	return nil
 }
